@@ -177,6 +177,8 @@ func handlerFunc(app *fiber.App, h ...fiber.Handler) http.HandlerFunc {
 		fctx := ctxPool.Get().(*fasthttp.RequestCtx) //nolint:forcetypeassert,errcheck // overlinting
 		fctx.Response.Reset()
 		fctx.Request.Reset()
+		// user values carry fiber's Locals: those of the request that used this context before must not surface here
+		fctx.ResetUserValues()
 		defer ctxPool.Put(fctx)
 		fctx.Init(req, remoteAddr, &disableLogger{})
 
